@@ -36,7 +36,7 @@ type splice struct {
 
 type stats struct {
 	Files, Funcs, Loops, MapRanges, Stores, MapStores, Globals, SkippedStores int
-	Skipped                                                                    []string
+	Skipped                                                                   []string
 }
 
 const hookPath = "github.com/vektah/gqlparser/v2/verifhook"
